@@ -34,13 +34,20 @@ def cases(tier, seed):
     return [{"gen": "tree", "seed": case_seed(seed, "C11", "tree", i)} for i in range(n)]
 
 
-def balanced_tree(rng, a, b, n_splits):
-    """every inner node has zero or two children"""
-    nodes = [(a, b, 1)]   # leaves of the implicit tree as (left bound, right bound, level of the midpoint)
+def balanced_tree(rng, a, b, n_splits, complete_depth=1):
+    """every inner node has zero or two children; starts from the complete tree of depth complete_depth"""
     pts = {a: 0, b: 0}
     m = 0.5 * (a + b)
     pts[m] = 1
     leaves = [(a, m, b, 1)]  # (left, point, right, level)
+    for _ in range(complete_depth - 1):
+        nxt = []
+        for l, p, r, L in leaves:
+            lm, rm_ = 0.5 * (l + p), 0.5 * (p + r)
+            pts[lm] = L + 1
+            pts[rm_] = L + 1
+            nxt += [(l, lm, p, L + 1), (p, rm_, r, L + 1)]
+        leaves = nxt
     for _ in range(n_splits):
         i = rng.randrange(len(leaves))
         l, p, r, L = leaves.pop(i)
@@ -181,8 +188,9 @@ def run_case(case, res):
             res.close("integrate_equals_weighted_sum", float(np.atleast_1d(val)[0]), ref, 1e-12 * max(1.0, abs(ref)) * 8,
                       "C11_integrate_differs_from_weights", "integrate(f) differs from sum w_i f(x_i)", cfg)
     elif gen == "balanced":
-        xs, lv = balanced_tree(rng, a, b, rng.randint(0, 14))
-        cfg.update({"n": len(xs), "levels": lv})
+        cdepth = rng.choice([1, 1, 2, 3, 4, 5])
+        xs, lv = balanced_tree(rng, a, b, rng.choice([0, 0, rng.randint(1, 14)]), complete_depth=cdepth)
+        cfg.update({"n": len(xs), "levels": lv, "complete_depth": cdepth})
         bg = E.BalancedExtrapolationGrid()
         for _ in range(rng.choice([0, 0, 1])):
             hx, hl = balanced_tree(rng, a, b, rng.randint(0, 14))
